@@ -98,6 +98,8 @@ def catalogue():
         wn.get_node("T1").vol_curve_name = "vc1"
     @dev("t_minvol")
     def _(wn): wn.get_node("T1").min_vol = 40.0
+    @dev("t_mixfrac_only")       # API: a compartment fraction without a mixing model (an INP [MIXING] line always names a model)
+    def _(wn): wn.get_node("T1").mixing_fraction = 0.25
     @dev("t_tag")
     def _(wn): wn.get_node("T1").tag = "tower"
     # ---------------- reservoir
@@ -479,7 +481,7 @@ NAMED_PAIRS = [("o_reaction", "p_coeffs"), ("o_reaction", "t_bulk"), ("o_qual_ch
                ("o_time", "z_time0"), ("o_pdd", "z_elev0"), ("o_qual_chem", "z_source0"), ("o_energy", "z_pump_speed0")]
 
 
-NOT_IN_INP = ("j_leak", "t_leak", "r_relative", "k_junction_head", "j_leak_removed", "t_leak_removed", "pat_nowrap", "p_cv_closed", "k_time_ge", "k_clock_after")      # WNTR-only: no place in the INP format
+NOT_IN_INP = ("j_leak", "t_leak", "r_relative", "k_junction_head", "j_leak_removed", "t_leak_removed", "pat_nowrap", "p_cv_closed", "k_time_ge", "k_clock_after", "t_mixfrac_only")      # WNTR-only: no place in the INP format
 
 
 def enumerate_specs(dmax, keep=None):
